@@ -574,42 +574,68 @@ func runC17(c *eng.Ctx) {
 	})
 
 	// ---- the parser never hands out an operator node with a missing operand -------------------------------------------------------------
-	c.Rule("GUARD", "sql.queryStmtParser.completeFieldExpr{operands present}", func() {
-		// the grammar lets a duration literal or `*` stand where a field expression is expected (select f+1m …, select (1m) …);
-		// visitExprAtom ignores such atoms, so the Paren / Binary node popped at the end of the production has a nil child:
-		// it marshals as `null` and the leaf can not read the statement back.  Necessary condition: the node popped as complete
-		// is tested for nil operands (and the statement refused) before it becomes a parameter or a select item.
-		f := c.Fn("sql.queryStmtParser.completeFieldExpr")
-		checked := map[string]bool{}
-		for _, b := range eng.BlocksT(f) {
-			for _, in := range b.Instrs {
-				bo, ok := in.(*ssa.BinOp)
-				if !ok || bo.Op != token.EQL && bo.Op != token.NEQ {
-					continue
-				}
-				if strings.HasSuffix(p.FuncKey(in.Parent()), ".setExprParam") {
-					continue // setExprParam tests Left/Right to decide WHERE a parameter goes, not whether the node is complete
-				}
-				var other ssa.Value
-				if eng.IsNilConst(bo.X) {
-					other = bo.Y
-				} else if eng.IsNilConst(bo.Y) {
-					other = bo.X
-				} else {
-					continue
-				}
-				for _, k := range []string{"sql/stmt.ParenExpr.Expr", "sql/stmt.BinaryExpr.Left", "sql/stmt.BinaryExpr.Right"} {
-					if eng.DependsOnField(other, k) {
-						checked[k] = true
+	operandsPresent := func(fnName string, fields []string) {
+		c.Rule("GUARD", "sql.queryStmtParser."+fnName+"{operands present}", func() {
+			// the grammar lets a duration literal or `*` stand where a field expression is expected (select f+1m …, select (1m) …);
+			// visitExprAtom ignores such atoms, so the Paren / Binary node popped at the end of the production has a nil child:
+			// it marshals as `null` and the leaf can not read the statement back.  Necessary condition: the node popped as complete
+			// is tested for nil operands (and the statement refused) before it becomes a parameter or a select item.
+			f := c.Fn("sql.queryStmtParser." + fnName)
+			checked := map[string]bool{}
+			for _, b := range eng.BlocksT(f) {
+				for _, in := range b.Instrs {
+					bo, ok := in.(*ssa.BinOp)
+					if !ok || bo.Op != token.EQL && bo.Op != token.NEQ {
+						continue
+					}
+					if strings.HasSuffix(p.FuncKey(in.Parent()), ".setExprParam") {
+						continue // setExprParam tests Left/Right to decide WHERE a parameter goes, not whether the node is complete
+					}
+					var other ssa.Value
+					if eng.IsNilConst(bo.X) {
+						other = bo.Y
+					} else if eng.IsNilConst(bo.Y) {
+						other = bo.X
+					} else {
+						continue
+					}
+					for _, k := range fields {
+						if eng.DependsOnField(other, k) {
+							checked[k] = true
+						}
 					}
 				}
 			}
+			for _, k := range fields {
+				c.Check(checked[k], "nil-operand-refused:"+k, nil, f,
+					"a parenthesised / binary expression is completed only with its operands present ("+k+" tested against nil): a statement with a missing operand is refused by the parser instead of being sent to the leaves in a form they can not decode",
+					"no nil test of "+k+" in "+fnName+" (or its helpers)")
+			}
+		})
+	}
+	operandsPresent("completeFieldExpr", []string{"sql/stmt.ParenExpr.Expr", "sql/stmt.BinaryExpr.Left", "sql/stmt.BinaryExpr.Right"})
+	// F37: the comparison / logical node of a HAVING clause is completed by completeBoolExpr
+	operandsPresent("completeBoolExpr", []string{"sql/stmt.BinaryExpr.Left", "sql/stmt.BinaryExpr.Right"})
+
+	// F37: a number the parser can not represent is refused, not replaced (an overflowing literal becomes +Inf, which has no JSON form)
+	c.Rule("ERRFLOW", "sql{a literal that does not convert is a parse error}", func() {
+		n := 0
+		for _, fn := range p.FuncsWithPrefix("sql.") {
+			for _, s := range p.SitesDirect(fn, eng.CallTo("strconv.ParseFloat", "strconv.ParseInt", "strconv.ParseUint", "strconv.Atoi", "strconv.ParseBool")) {
+				n++
+				cl := s.Instr.(*ssa.Call)
+				used := false
+				for _, r := range *cl.Referrers() {
+					if ex, ok := r.(*ssa.Extract); ok && ex.Index == 1 && ex.Referrers() != nil && len(*ex.Referrers()) > 0 {
+						used = true
+					}
+				}
+				c.Check(used, fmt.Sprintf("conversion-error-examined@%s[%d]", p.FuncKey(fn), n), s.Instr, fn,
+					"the error of a literal's conversion is examined: a value that does not fit (e.g. a 400-digit number -> +Inf) must fail the parse, because the statement would not survive the wire",
+					"the error result of "+p.Desc(cl)+" is discarded")
+			}
 		}
-		for _, k := range []string{"sql/stmt.ParenExpr.Expr", "sql/stmt.BinaryExpr.Left", "sql/stmt.BinaryExpr.Right"} {
-			c.Check(checked[k], "nil-operand-refused:"+k, nil, f,
-				"a parenthesised / binary expression is completed only with its operands present ("+k+" tested against nil): a statement with a missing operand is refused by the parser instead of being sent to the leaves in a form they can not decode",
-				"no nil test of "+k+" in completeFieldExpr (or its helpers)")
-		}
+		c.Check(n >= 3, "conversions-found", nil, nil, "the parser converts literals with strconv", fmt.Sprintf("%d", n))
 	})
 
 	// ---- custom wire forms: encoder and decoder of one type are inverse by construction, and no number is narrowed on the way ---------
